@@ -18,11 +18,17 @@ Qed.
 Lemma blockview_0 {A} np (x y : list A) : length x = np -> blockview np 0 (x ++ y) = x.
 Proof. intro H. unfold blockview. cbn [Nat.mul skipn]. apply firstn_app_exact. exact H. Qed.
 
+Lemma skipn_add {A} : forall a b (l : list A), skipn (a + b) l = skipn b (skipn a l).
+Proof.
+  induction a as [|a IH]; intros b l; [reflexivity|].
+  destruct l as [|x l]; cbn [Nat.add skipn]; [destruct b; reflexivity | apply IH].
+Qed.
+
 Lemma blockview_S {A} np k (x y : list A) : length x = np ->
   blockview np (S k) (x ++ y) = blockview np k y.
 Proof.
   intro H. unfold blockview. replace (S k * np)%nat with (np + k * np)%nat by lia.
-  rewrite <- skipn_skipn. rewrite (skipn_app_exact x y np H). reflexivity.
+  rewrite skipn_add. rewrite (skipn_app_exact x y np H). reflexivity.
 Qed.
 
 Lemma grams_from_length k : forall t, length (grams_from k t) = k.
@@ -57,6 +63,22 @@ Proof.
     apply IH; [exact Hbs | rewrite skipn_length; lia | exact Hk].
 Qed.
 
+Lemma flat_grams_length np blocks : uniform_rank np blocks ->
+  length (flat_map grams blocks) = (length blocks * np)%nat.
+Proof.
+  induction blocks as [|t l IH]; intro U; [reflexivity|]. inversion U; subst.
+  cbn [flat_map length]. rewrite app_length, grams_length, IH by assumption. lia.
+Qed.
+
+Lemma nth_error_combine_seq {A} : forall (l : list A) k s,
+  nth_error (combine (seq s (length l)) l) k = option_map (fun x => ((s + k)%nat, x)) (nth_error l k).
+Proof.
+  induction l as [|a l IH]; intros k s; destruct k; cbn [length seq combine nth_error option_map];
+    try reflexivity.
+  - rewrite Nat.add_0_r. reflexivity.
+  - rewrite IH. replace (S s + k)%nat with (s + S k)%nat by lia. reflexivity.
+Qed.
+
 Lemma blockview_map {A B} (f : A -> B) np k l : blockview np k (map f l) = map f (blockview np k l).
 Proof. unfold blockview. rewrite skipn_map, firstn_map. reflexivity. Qed.
 
@@ -87,9 +109,7 @@ Section History.
     length (ds_new_stats w1 w2 (ds_blocks b shape g) stats) = length stats.
   Proof.
     intro H. unfold ds_new_stats. apply map2_length. rewrite H.
-    pose proof (blocks_uniform g) as U. clear H.
-    induction (ds_blocks b shape g) as [|t l IH]; [reflexivity|].
-    inversion U; subst. cbn [flat_map length]. rewrite app_length, grams_length, IH by assumption. lia.
+    symmetry. apply flat_grams_length. apply blocks_uniform.
   Qed.
 
   (* non-interference: two gradient histories that agree on block k give equal statistics of
@@ -104,15 +124,18 @@ Section History.
     induction h as [|[u g] h IH]; intros h' stats stats' g0 Ha Hl Hl' Hv Hk; inversion Ha; subst.
     - exact Hv.
     - destruct y as [u' g']. destruct H1 as [Hu Hb]. cbn [fst snd] in *. subst u'. cbn [stats_run].
+      assert (Hg : forall g1, length stats = (length (ds_blocks b shape g1) * length shape)%nat)
+        by (intro g1; rewrite (ds_blocks_length g1 g0); exact Hl).
+      assert (Hg' : forall g1, length stats' = (length (ds_blocks b shape g1) * length shape)%nat)
+        by (intro g1; rewrite Hl'; apply Hg).
       destruct u.
       + apply (IH _ _ _ g0 H3).
-        * rewrite stats_step_length; rewrite (ds_blocks_length g g0); exact Hl.
-        * rewrite !stats_step_length; try (rewrite (ds_blocks_length _ g0); lia). exact Hl'.
+        * rewrite stats_step_length by apply Hg. exact Hl.
+        * rewrite !stats_step_length by (apply Hg || apply Hg'). exact Hl'.
         * destruct (nth_error (ds_blocks b shape g) k) as [blk|] eqn:E.
-          -- rewrite (ds_stats_block_local w1 w2 (length shape) _ stats k blk (blocks_uniform g)
-                        ltac:(rewrite (ds_blocks_length g g0); exact Hl) E).
+          -- rewrite (ds_stats_block_local w1 w2 (length shape) _ stats k blk (blocks_uniform g) (Hg g) E).
              rewrite (ds_stats_block_local w1 w2 (length shape) _ stats' k blk (blocks_uniform g')
-                        ltac:(rewrite (ds_blocks_length g' g0); lia) (eq_sym Hb)).
+                        (Hg' g') (eq_sym Hb)).
              rewrite Hv. reflexivity.
           -- apply nth_error_None in E. rewrite (ds_blocks_length g g0) in E. lia.
         * exact Hk.
@@ -143,12 +166,7 @@ Section History.
               option_map (fun blk => precondition_block blk (blockview (length shape) k pre))
                          (nth_error bl k)).
     { intros bl pre. rewrite nth_error_map.
-      assert (C : forall (l : list tensor) s, nth_error (combine (seq s (length l)) l) k =
-                    option_map (fun x => ((s + k)%nat, x)) (nth_error l k)).
-      { clear. revert k. induction l as [|a l IHl]; intros s; destruct k; cbn; try reflexivity.
-        - rewrite Nat.add_0_r. reflexivity.
-        - rewrite IHl. replace (S s + k)%nat with (s + S k)%nat by lia. reflexivity. }
-      rewrite C. destruct (nth_error bl k); reflexivity. }
+      rewrite nth_error_combine_seq. destruct (nth_error bl k); reflexivity. }
     rewrite !L, !blockview_map, E, Hg. reflexivity.
   Qed.
 End History.
@@ -175,7 +193,7 @@ Proof.
   induction shape as [|d rest IH]; intros data H; [reflexivity|].
   cbn [origin map slice_rec skipn]. rewrite prodn_cons in H.
   assert (Hl : length (chunks (prodn rest) d data) = d) by apply chunks_length.
-  rewrite <- Hl at 2. rewrite firstn_all.
+  rewrite firstn_all2 by lia.
   rewrite (map_ext_in _ (fun r => r)).
   - rewrite map_id. apply concat_chunks. exact H.
   - intros r Hr. apply IH.
@@ -202,7 +220,7 @@ Proof.
   { induction l as [|a l IH]; [reflexivity|]. cbn [map cart_prod flat_map]. rewrite IH. reflexivity. }
   assert (C2 : forall l : list nat, cart_prod (map prefix_starts (map (fun d => [d]) l)) = [origin l]).
   { induction l as [|a l IH]; [reflexivity|]. cbn [map cart_prod flat_map]. rewrite IH. reflexivity. }
-  rewrite C1, C2. cbn [combine map box_of fst snd]. rewrite slice_full by exact Hg. reflexivity.
+  rewrite C1, C2. cbn [combine map]. unfold box_of. cbn [fst snd]. rewrite slice_full by exact Hg. reflexivity.
 Qed.
 
 (* ---------- parameters: one flat list through the (padded, batched) root computation ---------- *)
@@ -285,3 +303,40 @@ Example tf_pth_inv_root_new_same :
   nth_error (pth_inv_root eigh_1x1 (fun _ _ => 1) 2 [[[1]]; [[1 # 100000000000000]]]) 1 =
   nth_error (pth_inv_root eigh_1x1 (fun _ _ => 1) 2 [[[1 # 100000000000000]]; [[1 # 100000000000000]]]) 1.
 Proof. reflexivity. Qed.
+
+(* ---------- the uniform-rank hypothesis holds for BlockPartitioner's blocks ---------- *)
+Lemma cart_prod_length {A} : forall (ls : list (list A)),
+  Forall (fun t => length t = length ls) (cart_prod ls).
+Proof.
+  induction ls as [|l ls IH]; cbn [cart_prod length].
+  - constructor; [reflexivity | constructor].
+  - apply Forall_forall. intros t Ht. apply in_flat_map in Ht as [x [_ Ht]].
+    apply in_map_iff in Ht as [t' [E Ht']]. subst t. cbn [length]. f_equal.
+    apply (proj1 (Forall_forall _ _) IH). exact Ht'.
+Qed.
+
+Lemma ds_blocks_uniform b shape g : uniform_rank (length shape) (ds_blocks b shape g).
+Proof.
+  unfold uniform_rank, ds_blocks, ds_boxes. apply Forall_forall. intros t Ht.
+  apply in_map_iff in Ht as [[st sz] [E Hin]]. subst t. cbn [box_of t_shape snd].
+  apply in_combine_r in Hin.
+  pose proof (cart_prod_length (ds_split_sizes b shape)) as F.
+  rewrite (proj1 (Forall_forall _ _) F sz Hin).
+  unfold ds_split_sizes. rewrite split_sizes_spec, !map_length. reflexivity.
+Qed.
+
+(* final form of the non-interference theorem, no residual hypothesis *)
+Theorem ds_block_local_closed (root : positive -> mat -> mat) w1 w2 b shape p k h h' stats g0 g g' :
+  agree_on b shape k h h' ->
+  length stats = (length (ds_blocks b shape g0) * length shape)%nat ->
+  (k < length (ds_blocks b shape g0))%nat ->
+  nth_error (ds_blocks b shape g) k = nth_error (ds_blocks b shape g') k ->
+  let S := stats_run w1 w2 b shape stats h in let S' := stats_run w1 w2 b shape stats h' in
+  blockview (length shape) k S = blockview (length shape) k S' /\
+  blockview (length shape) k (map (root p) S) = blockview (length shape) k (map (root p) S') /\
+  nth_error (ds_precond_blocks (length shape) (ds_blocks b shape g) (map (root p) S)) k =
+  nth_error (ds_precond_blocks (length shape) (ds_blocks b shape g') (map (root p) S')) k.
+Proof.
+  intros. apply (ds_block_local root w1 w2 b shape p (ds_blocks_uniform b shape) k h h' stats g0 g g');
+    assumption.
+Qed.
